@@ -7,6 +7,7 @@ format; `check` diffs the two streams.  Byte strings are written `x<hex>` (`x` =
 Import-free (apart from the model), so this links as a native executable.
 -/
 import TypedPathVerif.Model.Path
+import TypedPathVerif.Spec.StdSpec
 
 open TP
 
@@ -202,6 +203,11 @@ def step (line : String) : String :=
     match parseEnc e, parseHex a with
     | some e, some a => " ".intercalate ((hashChunks e a).map hexOf)
     | _, _ => badOp
+  | ["stdcomps", h] =>
+    -- the *specification* (Spec/StdSpec.lean); the harness answers with real std::path
+    match parseHex h with
+    | some b => s!"{showComps (StdSpec.comps b)} root={showBool (StdSpec.hasRoot b)}"
+    | none => badOp
   | ["derive", h] =>
     match parseHex h with
     | some b => if deriveIsWindows b then "w" else "u"
